@@ -241,7 +241,11 @@ def tree_variants(line, rng, prop):
                 q = list(parts); q[pi] = "x" + (pb[:pb.rfind(b"/")] + b"/" + tok if b"/" in pb else b"/" + tok).hex(); out.append(" ".join(q))
         # unusual scalar kinds where a boolean stood (C09 keeps to the common domain: floats only)
         if "#t" in line:
-            kinds = [FLOAT] if prop == "C09" else ([FLOAT, BIGU] if backend == "json" else [FLOAT, DATE])
+            if prop == "C09":
+                # the common JSON/TOML domain (floats), plus — for the resolve/resolve_mut relation on toml alone — datetimes
+                kinds = [FLOAT] + ([DATE] if backend == "toml" and op in ("resolve", "resolve_mut", "write") else [])
+            else:
+                kinds = [FLOAT, BIGU] if backend == "json" else [FLOAT, DATE]
             for k in kinds:
                 q = list(parts)
                 q[di] = re.sub(r"#t(?=[,\]}]|$)", k, q[di])
@@ -249,7 +253,15 @@ def tree_variants(line, rng, prop):
                 out.append(" ".join(q))
     elif op == "tree_hist" and len(parts) >= 3:
         backend, doc, steps = parts[1], parts[2], parts[3:]
-        for kind in ("deep_obj", "wide_arr", "long_key"):
+        hist_kinds = ["deep_obj", "wide_arr", "long_key", "edge_key"] + (["wider_arr"] if rng.random() < 0.2 else [])
+        # three-digit indices (above 255) in one step of the history itself
+        if steps:
+            j = rng.randrange(len(steps)); f = steps[j].split("@")
+            if len(f) >= 2 and f[1].startswith("x"):
+                pb = bytes.fromhex(f[1][1:]); tok = rng.choice([b"256", b"299", b"999"])
+                f[1] = "x" + ((pb[:pb.rfind(b"/")] if b"/" in pb else b"") + b"/" + tok).hex()
+                out.append(" ".join([op, backend, doc] + steps[:j] + ["@".join(f)] + steps[j + 1:]))
+        for kind in hist_kinds:
             d2, pre = _wrap(doc, "", kind, rng)
             pre = bytes.fromhex(pre)
             new_steps, ok = [], True
